@@ -69,6 +69,8 @@ struct Obj {
   bool handed = false;
   volatile int slot = 0;               // TSan hand-over slot
   long optimize_calls = 0;
+  bool modified_since_solve = false;   // the LP was modified after the last solve (the next solve is a warm start on a changed LP)
+  bool free_row_nonbasic = false;      // at the start of the last optimize a free row (-inf,inf) was nonbasic
   // last returned basis (for reuse checks)
   std::vector<int> lastRows, lastCols;
   std::unique_ptr<LogBuf> logbuf; std::unique_ptr<std::ostream> logstream;
@@ -114,7 +116,7 @@ class Executor {
   // oracles
   void check_after_optimize(Obj& o, const Op& op, int status, bool stopped, const std::string& stopkind, long k, TaskCtx& t, bool guard_ref, bool bugs_fired);
   int twin_solve(Obj& o, TaskCtx& t, double* objval);
-  void check_verdict_real(Obj& o, int status, bool complete_expected, const char* resume_prop);
+  void check_verdict_real(Obj& o, int status, bool complete_expected, const std::vector<std::string>& also);
   void check_verdict_rational(Obj& o, int status, bool complete_expected);
   void check_basis(Obj& o, bool from_solve);
   void check_inverse(Obj& o);
@@ -122,6 +124,8 @@ class Executor {
   void check_params(Obj& o);
   void check_loaded_lp(Obj& o, const std::string& what);
   void check_sync(Obj& o);
+  void check_ratinverse(Obj& o);
+  void op_param(const Op& op, Obj& o);
   void op_setbasis(const Op& op, Obj& o);
   void observe_solution(Obj& o);
   std::map<std::string, std::string> ctx_of(Obj& o);
